@@ -705,6 +705,201 @@ def psbt_roles(ctx):
     return st
 
 
+# ------------------------------------------------------------------------------------------ key derivation functions
+def kdfs(ctx):
+    """ANSI X9.63 KDF and HKDF (RFC 5869) against direct transcriptions, at every size around the hash-block boundaries."""
+    import hmac as _hmac
+
+    from btclib import kdf
+
+    st = Stats()
+    errs = lib_errors()
+
+    def ref_x963(z, size, hf, info):
+        out, c = b"", 1
+        while len(out) < size:
+            out += hf(z + c.to_bytes(4, "big") + (info or b"")).digest()
+            c += 1
+        return out[:size]
+
+    def ref_extract(ikm, salt, hf):
+        return _hmac.new(salt if salt else bytes(hf().digest_size), ikm, hf).digest()
+
+    def ref_expand(prk, size, hf, info):
+        out, t, i = b"", b"", 1
+        while len(out) < size:
+            t = _hmac.new(prk, t + (info or b"") + bytes([i]), hf).digest()
+            out += t
+            i += 1
+        return out[:size]
+
+    # RFC 5869 A.1 gates the transcription
+    prk = ref_extract(bytes.fromhex("0b" * 22), bytes(range(13)), hashlib.sha256)
+    if ref_expand(prk, 42, hashlib.sha256, bytes(range(0xF0, 0xFA))).hex() != "3cb25f25faacd57a90434f64d0362f2a2d2d0a90cf1a5a4c5db02d56ecc4c5bf34007208d5b887185865":
+        from mc.core import HarnessError
+        raise HarnessError("HKDF transcription fails RFC 5869 A.1")
+    for hfname in ("sha256", "sha1", "sha512"):
+        hf = getattr(hashlib, hfname)
+        hlen = hf().digest_size
+        sizes = sorted({1, 2, hlen - 1, hlen, hlen + 1, 2 * hlen - 1, 2 * hlen, 2 * hlen + 1, 3 * hlen, 100, 254 * hlen, 255 * hlen - 1, 255 * hlen})
+        for z in (b"", b"\x00", bytes(range(32)), b"z" * 65):
+            for info in (None, b"", b"info", bytes(80)):
+                for size in sizes:
+                    st.evals += 2
+                    st.nontrivial += 1
+                    case = {"hf": hfname, "z_len": len(z), "info": None if info is None else len(info), "size": size}
+                    try:
+                        got = kdf.ansi_x9_63_kdf(z, size, hf, info)
+                    except errs as e:
+                        got = "refused " + repr(e)[:40]
+                    if got != ref_x963(z, size, hf, info):
+                        st.violation("C16/kdf/ansi-x9.63-differs", case, got[:16].hex() if isinstance(got, bytes) else got, ref_x963(z, size, hf, info)[:16].hex())
+                    for salt in (None, b"", b"salt", bytes(hlen), bytes(200)):
+                        st.evals += 1
+                        exp = ref_expand(ref_extract(z, salt, hf), size, hf, info)
+                        try:
+                            got = kdf.hkdf(z, size, hf, salt, info) if _hkdf_positional(kdf) else kdf.hkdf(z, size, hf, salt=salt, info=info)
+                        except errs as e:
+                            got = "refused " + repr(e)[:40]
+                        if got != exp:
+                            st.violation("C16/kdf/hkdf-differs", dict(case, salt=None if salt is None else len(salt)), got[:16].hex() if isinstance(got, bytes) else got, exp[:16].hex())
+        # sizes no KDF can answer are refused
+        for bad in (0, -1, 255 * hlen + 1):
+            st.evals += 1
+            try:
+                kdf.hkdf_expand(bytes(hlen), bad, hf, None)
+                st.violation("C16/kdf/invalid-size-accepted", {"hf": hfname, "size": bad}, "bytes", "refused")
+            except errs:
+                pass
+    return st
+
+
+def _hkdf_positional(kdf):
+    import inspect
+    ps = list(inspect.signature(kdf.hkdf).parameters.values())
+    return all(p.kind == p.POSITIONAL_OR_KEYWORD for p in ps[:5]) and [p.name for p in ps[:5]] == ["ikm", "size", "hf", "salt", "info"]
+
+
+# ------------------------------------------------------------------------------------------ BIP375 roles over a PSBT
+def _bip375_shard(combos):
+    import copy
+
+    from btclib import silent_payments as sp
+    from btclib.bip32 import bip32, rootxprv_from_seed
+    from btclib.psbt import silent_payments as psp
+    from checks import psbt_common as PC
+    from models import taproot_ref as TRm
+
+    st = Stats()
+    errs = lib_errors()
+    root = rootxprv_from_seed(b"\x05" * 32)
+    paths = {"wpkh": "m/84h/0h/0h/0/%d", "tr-key": "m/86h/0h/0h/0/%d", "pkh": "m/44h/0h/0h/0/%d", "sh-wpkh": "m/49h/0h/0h/0/%d"}
+    b_scan, b_spend = 11, 12
+    Bs, Bp = R.mul_fast(b_scan, G, P, 0), R.mul_fast(b_spend, G, P, 0)
+    for mix, recips, flow, serving in combos:
+        case = {"inputs": mix, "recipients": recips, "flow": flow, "bindings": serving}
+        st.evals += 1
+        st.nontrivial += 1
+        with backend(serving):
+            try:
+                addr = sp.address_from_keys(Bs, Bp)
+                laddr = sp.labeled_address_from_keys(b_scan, Bp, 1)
+                labels = sp.label_lookup(b_scan, [0, 1])
+                addresses = [addr if r == "plain" else laddr for r in recips]
+                psbt, prevouts = PC.build(mix, None, seq=5, lock=0, v2=True)
+                while len(psbt.outputs) < len(recips):
+                    psbt.outputs.append(copy.deepcopy(psbt.outputs[0]))
+                del psbt.outputs[len(recips):]
+                for o, a in zip(psbt.outputs, addresses):
+                    S_, M_, _ = sp.keys_from_address(a)
+                    o.script_pub_key = b""
+                    o.sp_v0_info = cbytes(S_) + cbytes(M_)
+                psbt.assert_valid()
+                prvs = []
+                for i, k in enumerate(mix):
+                    x = bip32.BIP32KeyData.b58decode(bip32.derive(root, paths[k] % i))
+                    d = int.from_bytes(x.key[1:], "big")
+                    prvs.append(TRm.tweak_seckey(d, b"") if k == "tr-key" else d)
+                if flow == "per-input":
+                    for i, d in enumerate(prvs):
+                        psp.set_input_share(psbt, i, d, bytes(32))
+                elif flow == "per-input-reversed":
+                    for i, d in reversed(list(enumerate(prvs))):
+                        psp.set_input_share(psbt, i, d, bytes([i]) * 32)
+                else:
+                    psp.set_global_share(psbt, prvs, bytes(32))
+                psp.assert_shares_as_valid(psbt)
+                psp.set_output_scripts(psbt)
+                psp.assert_as_valid(psbt)
+            except errs as e:
+                st.violation("C16/bip375/honest-roles-refused", case, repr(e)[:100], "output scripts")
+                continue
+            scripts = [o.script_pub_key for o in psbt.outputs]
+            # (1) they are what the address-level sender computes from the same inputs
+            outpoints = [pin.prev_out for pin in psbt.inputs]
+            spks = [po.script_pub_key.script for po in prevouts]
+            # BIP352 takes the private key of the key the output shows: for taproot that is the tweaked one, already in prvs
+            try:
+                direct = sp.output_keys(list(zip(prvs, spks)), outpoints, addresses)
+            except errs as e:
+                st.violation("C16/bip375/address-level-sender-refused", case, repr(e)[:100], "output keys")
+                continue
+            if sorted(scripts) != sorted(b"\x51\x20" + k for k in direct):
+                st.violation("C16/bip375/scripts-differ-from-bip352-sender", case, [x.hex()[:16] for x in scripts], [k.hex()[:12] for k in direct])
+            if any(len(x) != 34 or x[:2] != b"\x51\x20" for x in scripts) or len(set(scripts)) != len(scripts):
+                st.violation("C16/bip375/scripts-malformed-or-repeated", case, [x.hex()[:16] for x in scripts], "distinct p2tr scripts")
+            # (2) the recipient's scanner finds every one of them and can spend it
+            pubs = [(R.mul_fast(d, G, P, 0), spk) for d, spk in zip(prvs, spks)]
+            try:
+                found = sp.scan_transaction_outputs(b_scan, Bp, outpoints, pubs, [x[2:] for x in scripts], labels)
+            except errs as e:
+                st.violation("C16/bip375/scanner-refused", case, repr(e)[:100], "found outputs")
+                continue
+            if sorted(o.pub_key for o in found) != sorted(x[2:] for x in scripts):
+                st.violation("C16/bip375/scanner-misses-outputs", case, len(found), len(scripts))
+            for o in found:
+                d = sp.prv_key_from_tweak(b_spend, o.prv_key_tweak)
+                if R.mul_fast(d, G, P, 0)[0].to_bytes(32, "big") != o.pub_key:
+                    st.violation("C16/bip375/spending-key-does-not-open-output", case, "mismatch", o.pub_key.hex()[:12])
+            # (3) the Extractor's check is not vacuous: a flipped share, proof or script is refused
+            for what in ("share", "proof", "script"):
+                st.evals += 1
+                q = copy.deepcopy(psbt)
+                holder = q if flow == "global" else q.inputs[0]
+                try:
+                    if what == "script":
+                        q.outputs[0].script_pub_key = q.outputs[0].script_pub_key[:-1] + bytes([q.outputs[0].script_pub_key[-1] ^ 1])
+                    else:
+                        field = holder.sp_ecdh_shares if what == "share" else holder.sp_dleq_proofs
+                        key = next(iter(field))
+                        v = field[key]
+                        field[key] = v[:-1] + bytes([v[-1] ^ 1])
+                    psp.assert_as_valid(q)
+                    st.violation("C16/bip375/altered-psbt-accepted/" + what, case, "accepted", "refused")
+                except errs:
+                    pass
+                except StopIteration:
+                    st.violation("C16/bip375/no-share-written", case, "empty field", "a share")
+            st.outcomes[(len(mix), len(recips), flow)] += 1
+    return st
+
+
+def bip375_roles(ctx):
+    kinds = ["wpkh", "tr-key", "pkh", "sh-wpkh"]
+    combos = []
+    for serving in (True, False):
+        for size in (1, 2, 3):
+            for mix in itertools.combinations_with_replacement(kinds, size):
+                for recips in (("plain",), ("plain", "plain"), ("plain", "labelled"), ("labelled", "plain", "plain")):
+                    for flow in ("per-input", "per-input-reversed", "global"):
+                        if serving is False and (size == 3 or flow == "per-input-reversed"):
+                            continue
+                        combos.append((mix, recips, flow, serving))
+    st = ctx.pmap(_bip375_shard, shard_round_robin(combos, 64))
+    st.notes["combos"] = len(combos)
+    return st
+
+
 SUBS = [
     ("musig2_sessions", musig2_sessions),
     ("musig2_adaptor", musig2_adaptor),
@@ -713,4 +908,6 @@ SUBS = [
     ("ellswift_toy", ellswift_toy),
     ("ecies_dleq_borromean", ecies_dleq_borromean),
     ("silent_payments", silent_payments),
+    ("kdfs", kdfs),
+    ("bip375_roles", bip375_roles),
 ]
